@@ -7,6 +7,8 @@ import Driver.Common
 import Sth.Model.Store
 import Sth.Model.Recover
 import Sth.Model.GC
+import Sth.Model.Fsck
+import Driver.Img
 
 namespace Driver.Seq
 open Sth Driver
@@ -30,6 +32,7 @@ structure St where
   acctLastOp : String := ""
   acctLastRes : String := ""
   acctSince : List String := []      -- mutating ops since the last acct view
+  gcDirty : Bool := false            -- a primary GC cycle started with unflushed index updates and no store flush completed since
   -- C11 progress, from the implementation's own views
   c11Marked : Bool := false
   c11DeadP : List Nat := []          -- non-current primary files without live data at the mark
@@ -352,6 +355,20 @@ def stepCore (st : St) (l : Line) : St × List Msg :=
                 [Msg.prop (tag ++ s!"locations {superseded} stopped being current but {recorded} were recorded on the freelist")]))
       ({ st with acctCur := some cur, acctFl := fl, acctEver := (st.acctEver ++ fl).eraseDups, acctSince := [], c11LastAcct := l.res }, corr ++ props ++ [Msg.flag "acct"] ++
         (if fl.isEmpty then [] else [Msg.flag "freelist-nonempty"]))
+    | "fsck" =>
+      -- C07: the Lean fsck evaluated on the REAL directory bytes and the real live bucket table
+      let im := Driver.Img.parseImg (ra.get "img")
+      let live : NMap Nat := ((ra.get "buckets").splitOn ",").foldl (fun acc kv => match kv.splitOn ":" with
+        | [b, p] => acc.set (b.toNat?.getD 0) (p.toNat?.getD 0)
+        | _ => acc) []
+      let hdrBad := (if im.badIdxHdr then ["index header does not parse"] else []) ++ (if im.badPriHdr then ["primary header does not parse"] else [])
+      let viol := hdrBad ++ fsck m.kind im.disk live
+      -- recogniser of known finding D11: a primary GC cycle ran since the last completed store flush while index updates were unflushed
+      let known := if st.gcDirty then " [known:D11 gc-handover-with-dirty-index]" else ""
+      let modelViol := fsck m.kind d (m.buckets.filter (·.2 ≠ 0))
+      (st, viol.map (fun v => Msg.prop s!"fsck after {st.acctLastOp}: {v}{known}") ++
+           (if modelViol.isEmpty ∨ !viol.isEmpty then [] else [Msg.corr s!"fsck: the model's own files are inconsistent: {modelViol}"]) ++
+           [Msg.flag "fsck"] ++ (if live.length ≥ 2 then [Msg.flag "fsck-2-buckets"] else []))
     | "sizes" =>
       let ms := s!"index={indexStorage d} primary={primaryStorage m.kind d} freelist={freelistStorage d}"
       let total := ra.nat "index" + ra.nat "primary" + ra.nat "freelist"
@@ -401,7 +418,11 @@ def stepCore (st : St) (l : Line) : St × List Msg :=
     | _ => (st, [Msg.corr s!"unknown op {l.op}"])
 
 def step (st : St) (l : Line) : St × List Msg :=
+  let dirtyBefore : Bool := match st.store.mem with | some m => !m.inext.isEmpty | none => false
   let (st', msgs) := stepCore st l
+  let st' := if l.op == "pgc" && dirtyBefore then { st' with gcDirty := true }
+             else if (l.op == "flush" || l.op == "iter" || l.op == "close" || l.op == "paths") && l.res.startsWith "ok" then { st' with gcDirty := false }
+             else st'
   if l.op = "acct" ∨ l.op = "view" ∨ l.op = "disk" ∨ l.op = "get" ∨ l.op = "has" ∨ l.op = "size" ∨ l.op = "sizes" then (st', msgs)
   else ({ st' with acctLastOp := l.op, acctLastRes := l.res, acctSince := st'.acctSince ++ [l.op],
                    acctCur := if l.op = "close" ∨ l.op = "open" ∨ l.op = "paths" then none else st'.acctCur }, msgs)
